@@ -169,10 +169,10 @@ package bttest
 //@   ensures fresh(result) ==> forall i :: 0 <= i < old(len(fam.Columns)) ==> !bytesEq(old(fam.Columns[i].Qualifier), name)
 //@   ensures !fresh(result) ==> len(fam.Columns) == old(len(fam.Columns)) && obj(fam.Columns) == old(obj(fam.Columns))
 
-//@ spec colFresh(c *btpb.Column) bool = fresh(c) && (cap(c.Cells) == 0 || fresh(c.Cells))
-//@ spec famFresh(f *btpb.Family) bool = fresh(f) && (cap(f.Columns) == 0 || fresh(f.Columns)) && forall j :: 0 <= j < len(f.Columns) ==> colFresh(f.Columns[j])
+//@ spec colFresh(c *btpb.Column) bool = fresh(c) && (obj(c.Cells) == 0 || fresh(c.Cells))
+//@ spec famFresh(f *btpb.Family) bool = fresh(f) && (obj(f.Columns) == 0 || fresh(f.Columns)) && forall j :: 0 <= j < len(f.Columns) ==> colFresh(f.Columns[j])
 // the tree below a row is newly allocated (since function entry): family array, families, column arrays, columns, cell arrays
-//@ spec treeFresh(r *btpb.Row) bool = (cap(r.Families) == 0 || fresh(r.Families)) && forall i :: 0 <= i < len(r.Families) ==> famFresh(r.Families[i])
+//@ spec treeFresh(r *btpb.Row) bool = (obj(r.Families) == 0 || fresh(r.Families)) && forall i :: 0 <= i < len(r.Families) ==> famFresh(r.Families[i])
 //@ spec rowFresh(r *btpb.Row) bool = fresh(r) && treeFresh(r)
 //@ spec colCopyOf(c *btpb.Column, o *btpb.Column) bool = c.Qualifier == old(o.Qualifier) && len(c.Cells) == old(len(o.Cells)) && forall k :: 0 <= k < len(c.Cells) ==> c.Cells[k] == old(o.Cells[k])
 //@ spec famCopyOf(f *btpb.Family, o *btpb.Family) bool = f.Name == old(o.Name) && len(f.Columns) == old(len(o.Columns)) && forall j :: 0 <= j < len(f.Columns) ==> colCopyOf(f.Columns[j], old(o.Columns[j]))
@@ -185,25 +185,29 @@ package bttest
 //@   ensures forall i :: 0 <= i < len(result.Families) ==> famFresh(result.Families[i])
 //@   ensures forall i :: 0 <= i < len(result.Families) ==> famCopyOf(result.Families[i], r.Families[i])
 //@   ensures bytesEq(result.Key, r.Key)
+//@   ensures rowsApartF(r, result)
+//@   ensures rowsApartC(r, result)
+//@   ensures rowsApartK(r, result)
+//@   ensures obj(result.Families) == 0 || fresh(result.Families)
 //@   loop 1 invariant frameOld(heap("F:bigtablepb.Row.Families"), heap("T:*bigtablepb.Family"), heap("F:bigtablepb.Family.Columns"), heap("F:bigtablepb.Family.Name"), heap("T:*bigtablepb.Column"), heap("F:bigtablepb.Column.Cells"), heap("F:bigtablepb.Column.Qualifier"), heap("T:*bigtablepb.Cell"))
 //@   loop 1 invariant nr != nil && fresh(nr) && famsOK(nr.Families) && len(nr.Families) == idx1 + 1
-//@   loop 1 invariant cap(nr.Families) == 0 || fresh(nr.Families)
+//@   loop 1 invariant obj(nr.Families) == 0 || fresh(nr.Families)
 //@   loop 1 invariant nr.Key == old(r.Key)
 //@   loop 1 invariant forall i :: 0 <= i < len(nr.Families) ==> famFresh(nr.Families[i])
 //@   loop 1 invariant forall i :: 0 <= i < len(nr.Families) ==> famCopyOf(nr.Families[i], r.Families[i])
 //@   loop 2 invariant frameOld(heap("F:bigtablepb.Row.Families"), heap("T:*bigtablepb.Family"), heap("F:bigtablepb.Family.Columns"), heap("F:bigtablepb.Family.Name"), heap("T:*bigtablepb.Column"), heap("F:bigtablepb.Column.Cells"), heap("F:bigtablepb.Column.Qualifier"), heap("T:*bigtablepb.Cell"))
 //@   loop 2 invariant nr != nil && fresh(nr) && famsOK(nr.Families) && len(nr.Families) == idx1 + 1
-//@   loop 2 invariant cap(nr.Families) == 0 || fresh(nr.Families)
+//@   loop 2 invariant obj(nr.Families) == 0 || fresh(nr.Families)
 //@   loop 2 invariant nr.Key == old(r.Key)
 //@   loop 2 invariant forall i :: 0 <= i < len(nr.Families) ==> famFresh(nr.Families[i])
 //@   loop 2 invariant forall i :: 0 <= i < len(nr.Families) ==> famCopyOf(nr.Families[i], r.Families[i])
-//@   loop 2 invariant f != nil && fresh(f) && colsOK(f.Columns) && (cap(f.Columns) == 0 || fresh(f.Columns))
+//@   loop 2 invariant f != nil && fresh(f) && colsOK(f.Columns) && (obj(f.Columns) == 0 || fresh(f.Columns))
 //@   loop 2 invariant 0 <= idx1 + 1 < len(r.Families) && fam == r.Families[idx1 + 1]
 //@   loop 2 invariant f.Name == old(fam.Name) && len(f.Columns) == idx2 + 1
 //@   loop 2 invariant forall j :: 0 <= j < len(f.Columns) ==> colFresh(f.Columns[j])
 //@   loop 2 invariant forall j :: 0 <= j < len(f.Columns) ==> colCopyOf(f.Columns[j], old(fam.Columns[j]))
 //@   loop 2 invariant forall i :: 0 <= i < len(nr.Families) ==> nr.Families[i] != f
-//@   loop 2 invariant cap(f.Columns) == 0 || forall i :: 0 <= i < len(nr.Families) ==> obj(f.Columns) > obj(nr.Families[i].Columns)
+//@   loop 2 invariant obj(f.Columns) == 0 || forall i :: 0 <= i < len(nr.Families) ==> obj(f.Columns) > obj(nr.Families[i].Columns)
 //@   loop 2 invariant forall i, j :: 0 <= i < len(nr.Families) && 0 <= j < len(nr.Families[i].Columns) ==> obj(nr.Families[i].Columns[j]) < obj(f) 
 
 //@ func newTable
